@@ -104,6 +104,18 @@ impl ClientConnection {
     /// Reads a request from the stream.
     /// Blocks until the header has been read.
     fn read(&mut self) -> Result<Request, ReadError> {
+        // the address of the peer is unknown when the client was already gone (connection reset)
+        // by the time the connection was accepted: an I/O error like any other on this connection
+        let remote_addr = match self.remote_addr {
+            Ok(remote_addr) => remote_addr,
+            Err(ref err) => {
+                return Err(ReadError::ReadIoError(IoError::new(
+                    err.kind(),
+                    "the address of the peer is not available",
+                )))
+            }
+        };
+
         let (method, path, version, headers) = {
             // reading the request line
             let (method, path, version) = {
@@ -150,7 +162,7 @@ impl ClientConnection {
             path,
             version.clone(),
             headers,
-            *self.remote_addr.as_ref().unwrap(),
+            remote_addr,
             data_source,
             writer,
         )
